@@ -16,6 +16,7 @@ import (
 	"time"
 
 	"github.com/google/martian/v3"
+	"github.com/google/martian/v3/trafficshape"
 	"pgregory.net/rapid"
 
 	"verifharness/internal/kit"
@@ -54,6 +55,8 @@ type Case struct {
 	Unreachable  bool `json:"unreachable,omitempty"`
 	// Twin: a second tunnel (to another target) carries traffic both ways
 	// through the same proxy at the same time; nothing may cross between tunnels.
+	// Shaped: the proxy is served on a trafficshape.Listener (no shapes configured).
+	Shaped   bool   `json:"shaped,omitempty"`
 	Twin     bool   `json:"twin,omitempty"`
 	TwinSize int    `json:"twin_size,omitempty"`
 	TwinSeed uint64 `json:"twin_seed,omitempty"`
@@ -268,6 +271,9 @@ func downstream(l net.Listener, targetAddr string, coalesce int, routes ...func(
 
 func shapeOf(c Case) string {
 	s := c.Route
+	if c.Shaped {
+		s += "-shaped-listener"
+	}
 	if c.DownCoalesce {
 		s += "-coalesced-200"
 	}
@@ -361,7 +367,11 @@ func runOnce(c Case, T time.Duration) (v kit.Verdict) {
 	if c.Route == "downstream" {
 		p.SetDownstreamProxy(&url.URL{Scheme: "http", Host: "downstream.test:3128"})
 	}
-	pr := netkit.Start(p, nil)
+	var wrap func(net.Listener) net.Listener
+	if c.Shaped {
+		wrap = func(l net.Listener) net.Listener { return trafficshape.NewListener(l) }
+	}
+	pr := netkit.Start(p, wrap)
 	stopped := false
 	defer func() {
 		if !stopped {
@@ -653,6 +663,7 @@ func genCase(t *rapid.T) Case {
 	if c.Route == "downstream" {
 		c.DownCoalesce = rapid.IntRange(0, 2).Draw(t, "down_coalesce") == 0
 	}
+	c.Shaped = rapid.IntRange(0, 3).Draw(t, "shaped") == 0
 	if c.Route == "direct" && rapid.IntRange(0, 14).Draw(t, "unreachable") == 0 {
 		c.Unreachable = true
 	}
@@ -687,6 +698,9 @@ func classes(c Case) []string {
 	}
 	if c.Twin {
 		out = append(out, "concurrent-second-tunnel")
+	}
+	if c.Shaped {
+		out = append(out, "traffic-shaped-listener")
 	}
 	return out
 }
